@@ -36,6 +36,9 @@ class Ctx:
         self.workers = int(os.environ.get('VERIF_WORKERS', '0')) or min(
             16, os.cpu_count() or 1)
         self.quick = tier == 'quick'
+        # position of this hash seed in the list of seeds of the run: checks
+        # repeat only their hash-sensitive parts for index > 0
+        self.hash_index = int(os.environ.get('VERIF_HASH_INDEX', '0') or 0)
 
     def log(self, msg):
         sys.stderr.write('[%s h=%s] %s\n' % (self.prop, self.hash_seed, msg))
@@ -116,11 +119,12 @@ def match_known(known, prop, v):
     return None
 
 
-def run_child(prop, tier, seed, hs, budget, replay=None):
+def run_child(prop, tier, seed, hs, budget, replay=None, index=0):
     fd, out = tempfile.mkstemp(prefix='verif-%s-' % prop, suffix='.json')
     os.close(fd)
     env = dict(os.environ)
     env['PYTHONHASHSEED'] = str(hs)
+    env['VERIF_HASH_INDEX'] = str(index)
     cmd = [sys.executable, '-m', 'mc.runner', prop, '--tier', tier,
            '--seed', str(seed), '--budget', str(budget), '--child', out]
     if replay:
@@ -228,9 +232,9 @@ def main():
     total_budget = args.budget or getattr(mod, 'BUDGET', {}).get(
         args.tier, 60 if args.tier == 'quick' else 600)
     results = []
-    for hs in seeds:
+    for index, hs in enumerate(seeds):
         r = run_child(prop, args.tier, args.seed, hs,
-                      total_budget / len(seeds))
+                      total_budget / len(seeds), index=index)
         if not r.get('ok'):
             sys.stderr.write('harness error in %s (hash seed %s):\n%s\n'
                              % (prop, hs, r.get('error')))
